@@ -89,7 +89,7 @@ def run(sc, tier, seed):
     # design level: lifecycle x history (NoStaleContext), definitions total on the domain, typing, empty-batch rule.
     # The exhaustive runs (4 TLC workers each) go on in the background while the driver runs the real code.
     if tier == "quick":
-        cfgs = ["Aggregates_quick.cfg", "Aggregates_dom_quick.cfg", "Aggregates_domS_quick.cfg"]
+        cfgs = ["Aggregates_quick.cfg", "Aggregates_stream_quick.cfg", "Aggregates_dom_quick.cfg", "Aggregates_domS_quick.cfg"]
     else:
         cfgs = ["Aggregates_thorough.cfg", "Aggregates_stream_thorough.cfg", "Aggregates_stream2_thorough.cfg",
                 "Aggregates_dom_thorough.cfg", "Aggregates_domS_thorough.cfg"]
